@@ -78,7 +78,7 @@ impl Prop for PPipe {
             let chars = ["\u{65e5}", "\u{e9}", "\u{1F600}", "\u{20ac}", "\u{672c}"];
             // every other such case: long names below two long directories, and xargs under a small stack limit - the
             // paths (a few hundred KiB of multi-byte text) have to be spread over several command lines
-            let long = (_idx / 10) % 2 == 0;
+            let long = (_idx / 10) % 2 == 0 && _idx < 300;
             let mut parent = 1;
             if long {
                 for l in 0..2 {
